@@ -9,7 +9,7 @@ from common import Kernel, call_impl, coq_bool, coq_list, coq_Z, fl, flv, grid_v
 ID = "C17"
 N_CASES = {"quick": 340, "thorough": 5000, "search": 3000}
 RULE = ("seeded streams: grid boxes (zero-thickness sizes, negative sizes) each with a random call sequence of accessor reads "
-        "on ONE Box (some returned arrays modified in place) compared with a fresh Box; extreme power-of-two scales in "
+        "on ONE Box (some returned arrays modified in place) compared with a fresh Box; extreme power-of-two scales and a 10% int64 share in "
         "every tier; round 3-D clouds whose farthest pair is inside the bounding box; grid clouds with coincident / coplanar / "
         "repeated points at power-of-two scales and far offsets, random float clouds (oracle + tolerance), query points "
         "on faces / at atol distance, extent on clouds with tied farthest pairs, percentile with integer and "
